@@ -70,6 +70,20 @@ def groupSourceMeaning : List (String × List String) :=
    ("group.inj_water_guide_rate_def", ["guide_rate_def"]), ("group.inj_gas_guide_rate_def", ["guide_rate_def"]),
    ("group.prod_guide_rate_def", ["GuideRateModeFromGuideRateProdTarget(prod_guide_rate_def)"])]
 
+/-- Members the reader keeps in output units (class `rawUnits`): the measure of the UDA dimension that later converts
+them (GroupProductionProperties / GroupInjectionProperties constructors, GConSump) — the writer must use the same. -/
+def groupRawMeasure : List (String × String) :=
+  [("group.oil_rate_limit", "liquid_surface_rate"), ("group.water_rate_limit", "liquid_surface_rate"),
+   ("group.gas_rate_limit", "gas_surface_rate"), ("group.liquid_rate_limit", "liquid_surface_rate"),
+   ("group.water_surface_limit", "liquid_surface_rate"), ("group.water_reservoir_limit", "rate"),
+   ("group.gas_surface_limit", "gas_surface_rate"), ("group.gas_reservoir_limit", "rate"),
+   ("group.gas_consumption_rate", "gas_surface_rate"), ("group.gas_import_rate", "gas_surface_rate")]
+
+def Pre.measure? : Pre → Option String
+  | .fromSI m => some m
+  | .cond p _ _ => Pre.measure? p
+  | _ => none
+
 /-- Which writer function serves which phase (the water and gas injection members share source texts). -/
 def groupPhaseOfFn (fn : String) : String :=
   if fn = "assignGroupWaterInjectionTargets" then "water" else if fn = "assignGroupGasInjectionTargets" then "gas"
